@@ -190,21 +190,21 @@ func (s *Schema) JSON() []byte {
 
 // Opts selects which parts of the type space a generated schema may use.
 type Opts struct {
-	Tables       int  // number of tables (>=1)
-	MaxCols      int  // columns per table (besides forced ones)
-	Refs         bool // allow refTable columns
-	NonRoot      bool // allow non-root tables (implies Refs)
-	Indexes      bool // allow schema indexes
-	Immutable    bool // allow immutable columns
-	OddMapKeys   bool // allow map columns keyed by real / boolean (F13 territory)
-	Enums        bool
-	BoundedSets  bool // sets with finite max > 1
-	PlainUUID    bool // uuid columns without refTable
-	ScalarRefs   bool // min=max=1 references (need a target at insert time)
-	MinOneWeak   bool // weak reference sets with min 1
-	FewTypes     bool // restrict atomic types to integer/string (denser collisions)
-	RealColumns  bool
-	RefBias      int // percent chance that a column holds uuids (default 25)
+	Tables      int  // number of tables (>=1)
+	MaxCols     int  // columns per table (besides forced ones)
+	Refs        bool // allow refTable columns
+	NonRoot     bool // allow non-root tables (implies Refs)
+	Indexes     bool // allow schema indexes
+	Immutable   bool // allow immutable columns
+	OddMapKeys  bool // allow map columns keyed by real / boolean (F13 territory)
+	Enums       bool
+	BoundedSets bool // sets with finite max > 1
+	PlainUUID   bool // uuid columns without refTable
+	ScalarRefs  bool // min=max=1 references (need a target at insert time)
+	MinOneWeak  bool // weak reference sets with min 1
+	FewTypes    bool // restrict atomic types to integer/string (denser collisions)
+	RealColumns bool
+	RefBias     int // percent chance that a column holds uuids (default 25)
 }
 
 // Full is the default option set used by most engines.
